@@ -2,7 +2,7 @@
    Print Assumptions.  S, w, th range over ALL worlds (arbitrary effects of
    identifier reads, property get/set/delete, calls and operators on an
    arbitrary user state) and all values of this. *)
-From V Require Import Common.Base C05.Syntax C05.Sem C05.Lower C05.Frame C05.LowerProofs C05.SimLogic C05.Steps C05.Compose C05.Visit C05.Witness.
+From V Require Import Common.Base C05.Syntax C05.Sem C05.Lower C05.Frame C05.LowerProofs C05.SimLogic C05.Steps C05.Compose C05.Visit C05.Chain C05.Witness.
 
 (* An evaluation reads and writes only the temporaries that occur in the
    expression: fresh temporaries cannot be observed by, or interfere with, any
@@ -89,34 +89,95 @@ Theorem lower_sound_chainfree :
 Proof. exact lower_sound. Qed.
 Print Assumptions lower_sound_chainfree.
 
-(* t?.name  =>  (_n = t) == null ? void 0 : _n.name *)
-Theorem lower_optional_chain_dot_equiv_partial :
-  forall (S : Type) (w : world S) (th : val) F t name n,
-    f_optchain F = true -> is_inline_value t = false ->
-    obs_eq S w th (fst (fst (lowerOptionalChain F (EDot t name OcStart) (mkIn false false) out0 n)))
-                  (EDot t name OcStart).
-Proof. exact lowerOptionalChain_dot_captured. Qed.
-Print Assumptions lower_optional_chain_dot_equiv_partial.
+(* OPTIONAL CHAINS OF ARBITRARY LENGTH (induction over the list of links).
+   e' is a well-formed chain [frag]: an OcStart link at the bottom, OcCont
+   links above; [flatten e'] = (start, links from the inside out, starts-with-
+   call) is the model's step 1 of lowerOptionalChain.  The sub-expressions of
+   the links (keys, arguments) and start may already be lowered; their
+   temporaries are below the counter ([links_fresh], ~ In n (tmps start)).
+   Each theorem: the lowered expression has the same events, final state and
+   value/exception as the native chain, for every world and state. *)
 
-(* delete t?.name  =>  (_n = t) == null ? true : delete _n.name *)
-Theorem lower_optional_chain_delete_equiv_partial :
-  forall (S : Type) (w : world S) (th : val) F t name n,
-    f_optchain F = true -> is_inline_value t = false ->
-    obs_eq S w th (fst (fst (lowerOptionalChain F (EDelete (EDot t name OcStart)) (mkIn true false) out0 n)))
-                  (EDelete (EDot t name OcStart)).
-Proof. exact lowerOptionalChain_delete_captured. Qed.
-Print Assumptions lower_optional_chain_delete_equiv_partial.
+(* start?.a.b(c)[k]...  (the chain does not start with a call) *)
+Theorem lower_optional_chain_equiv :
+  forall (S : Type) (w : world S) (th : val) F e' i n start ls,
+    frag e' -> flatten e' = Some (start, ls, false) -> no_delete ls ->
+    f_optchain F = true -> storeThis i = false ->
+    start <> ENull -> start <> EUndef -> cap_ok S w start ->
+    ~ In n (tmps start) -> links_fresh (L1 n) ls ->
+    forall m s, observe (eval w th (fst (fst (lowerOptionalChain F e' i out0 n))) m s)
+              = observe (eval w th e' m s).
+Proof. exact chain_plain. Qed.
+Print Assumptions lower_optional_chain_equiv.
 
-(* t.name?.(args)  =>  (_n1 = (_n = t).name) == null ? void 0 : _n1.call(_n, args):
-   this is the captured object, arguments are evaluated once, after the test *)
-Theorem lower_optional_call_this_equiv_partial :
-  forall (S : Type) (w : world S) (th : val) F t name args n,
-    f_optchain F = true -> is_inline_value t = false -> call_intact S w ->
-    (forall k, In k [n; n + 1] -> ~ In k (flat_map tmps args)) ->
-    obs_eq S w th (fst (fst (lowerOptionalChain F (ECall (EDot t name OcNone) args OcStart) (mkIn false false) out0 n)))
-                  (ECall (EDot t name OcNone) args OcStart).
-Proof. exact lowerOptionalChain_call_captured. Qed.
-Print Assumptions lower_optional_call_this_equiv_partial.
+(* tg.name?.(args).x.y(z)...  : the call that starts the chain is made with
+   this = tg, tg evaluated once (captured, or a constant binding - F3/F3b are
+   the non-constant identifiers); requires Function.prototype.call intact (F5) *)
+Theorem lower_optional_call_member_equiv :
+  forall (S : Type) (w : world S) (th : val) F e' i n tg name args rest,
+    frag e' -> flatten e' = Some (EDot tg name OcNone, LCall args :: rest, true) -> no_delete rest ->
+    f_optchain F = true -> storeThis i = false ->
+    cap_ok S w tg -> call_intact S w ->
+    (forall k, L2 n k -> ~ In k (tmps tg)) -> links_fresh (L2 n) (LCall args :: rest) ->
+    forall m s, observe (eval w th (fst (fst (lowerOptionalChain F e' i out0 n))) m s)
+              = observe (eval w th e' m s).
+Proof. exact chain_call_member. Qed.
+Print Assumptions lower_optional_call_member_equiv.
+
+(* tg[key]?.(args)... *)
+Theorem lower_optional_call_index_equiv :
+  forall (S : Type) (w : world S) (th : val) F e' i n tg key args rest,
+    frag e' -> flatten e' = Some (EIndex tg key OcNone, LCall args :: rest, true) -> no_delete rest ->
+    f_optchain F = true -> storeThis i = false ->
+    cap_ok S w tg -> call_intact S w ->
+    (forall k, L2 n k -> ~ In k (tmps tg)) -> (forall k, L2 n k -> ~ In k (tmps key)) ->
+    links_fresh (L2 n) (LCall args :: rest) ->
+    forall m s, observe (eval w th (fst (fst (lowerOptionalChain F e' i out0 n))) m s)
+              = observe (eval w th e' m s).
+Proof. exact chain_call_index. Qed.
+Print Assumptions lower_optional_call_index_equiv.
+
+(* start?.(args)...  where start is not a member access (this is undefined) *)
+Theorem lower_optional_call_plain_equiv :
+  forall (S : Type) (w : world S) (th : val) F e' i n start args rest,
+    frag e' -> flatten e' = Some (start, LCall args :: rest, true) -> no_delete rest ->
+    f_optchain F = true -> storeThis i = false ->
+    start <> ENull -> start <> EUndef -> ends_with_access start = false ->
+    (forall m s, match eval w th start m s with (_, _, _, Ok o) => baseof o = VUndef | _ => True end) ->
+    cap_ok S w start -> ~ In n (tmps start) -> links_fresh (L1 n) (LCall args :: rest) ->
+    forall m s, observe (eval w th (fst (fst (lowerOptionalChain F e' i out0 n))) m s)
+              = observe (eval w th e' m s).
+Proof. exact chain_call_plain. Qed.
+Print Assumptions lower_optional_call_plain_equiv.
+
+(* delete start?.a.b[k]...  (short-circuits to true) *)
+Theorem lower_optional_delete_equiv :
+  forall (S : Type) (w : world S) (th : val) F d i n,
+    frag d -> ends_with_access d = true ->
+    forall start ls0 l,
+    flatten d = Some (start, ls0 ++ [l], false) -> no_delete (ls0 ++ [l]) ->
+    f_optchain F = true ->
+    start <> ENull -> start <> EUndef -> cap_ok S w start ->
+    ~ In n (tmps start) -> links_fresh (L1 n) (ls0 ++ [l]) ->
+    forall m s, observe (eval w th (fst (fst (lowerOptionalChain F (EDelete d) i out0 n))) m s)
+              = observe (eval w th (EDelete d) m s).
+Proof. exact chain_delete_plain. Qed.
+Print Assumptions lower_optional_delete_equiv.
+
+(* null?.a.b(c) is dead code: replaced by undefined for every feature set *)
+Theorem lower_optional_chain_dead :
+  forall (S : Type) (w : world S) (th : val) F e' i childOut n start ls swc,
+    frag e' -> flatten e' = Some (start, ls, swc) -> start = ENull \/ start = EUndef ->
+    forall m s, observe (eval w th (fst (fst (lowerOptionalChain F e' i childOut n))) m s)
+              = observe (eval w th e' m s).
+Proof. exact chain_dead. Qed.
+Print Assumptions lower_optional_chain_dead.
+
+(* NOT PROVED (modelled and tied by correspondence only): an optional call whose
+   callee is itself an optional chain ending in a property access (a?.b?.(),
+   a?.b.c?.(x): the this value travels through exprOut.thisArgFunc), chains
+   that start with a call under delete, and the composition of chain lowering
+   with the visitor theorem.  (a?.b)(args) is refuted (F4). *)
 
 (* The full statement of the property - for every world, feature set and
    temporary-free source expression the lowered tree behaves like the source -
@@ -129,31 +190,31 @@ Print Assumptions lower_optional_call_this_equiv_partial.
      F6  (null ?? o.f)?.()  folded callee becomes a property access: this = o *)
 Theorem lowering_preserves_behaviour_refuted :
   exists (S : Type) (w : world S) (th : val) (F : feat) (e : expr) (s : S),
-    tmps e = [] /\ run w th (lower F e) s <> run w th e s.
+    tmps e = [] /\ Sem.run w th (lower F e) s <> Sem.run w th e s.
 Proof. exact lowering_refuted_all. Qed.
 Print Assumptions lowering_preserves_behaviour_refuted.
 
 Theorem lowering_nullish_identifier_refuted :
-  run wit_world VUndef (lower all_features f1_src) 1 <> run wit_world VUndef f1_src 1.
+  Sem.run wit_world VUndef (lower all_features f1_src) 1 <> Sem.run wit_world VUndef f1_src 1.
 Proof. exact refuted_F1. Qed.
 Print Assumptions lowering_nullish_identifier_refuted.
 
 Theorem lowering_logical_assign_reread_refuted :
-  run wit_world VUndef (lower all_features f2_src) 1 <> run wit_world VUndef f2_src 1.
+  Sem.run wit_world VUndef (lower all_features f2_src) 1 <> Sem.run wit_world VUndef f2_src 1.
 Proof. exact refuted_F2. Qed.
 Print Assumptions lowering_logical_assign_reread_refuted.
 
 Theorem lowering_optional_call_this_reread_refuted :
-  run wit_world VUndef (lower all_features f3_src) 1 <> run wit_world VUndef f3_src 1.
+  Sem.run wit_world VUndef (lower all_features f3_src) 1 <> Sem.run wit_world VUndef f3_src 1.
 Proof. exact refuted_F3. Qed.
 Print Assumptions lowering_optional_call_this_reread_refuted.
 
 Theorem lowering_parenthesized_chain_call_refuted :
-  run wit_world VUndef (lower all_features f4_src) 1 <> run wit_world VUndef f4_src 1.
+  Sem.run wit_world VUndef (lower all_features f4_src) 1 <> Sem.run wit_world VUndef f4_src 1.
 Proof. exact refuted_F4. Qed.
 Print Assumptions lowering_parenthesized_chain_call_refuted.
 
 Theorem lowering_folded_callee_this_refuted :
-  run wit_world VUndef (lower all_features f6_src) 1 <> run wit_world VUndef f6_src 1.
+  Sem.run wit_world VUndef (lower all_features f6_src) 1 <> Sem.run wit_world VUndef f6_src 1.
 Proof. exact refuted_F6. Qed.
 Print Assumptions lowering_folded_callee_this_refuted.
